@@ -142,7 +142,9 @@ func CheckdirCategory(dir CurrPath, recurse bool) {
 				fix := line.Autofix()
 				fix.Errorf("Package %q must be listed here.", fCurrent)
 				if len(mRest) > 0 || !mlex.EOF() {
-					fix.InsertAbove("SUBDIR+=\t" + fCurrent.String())
+					// A '#' in the directory name would start a comment.
+					escaped := strings.Replace(fCurrent.String(), "#", "\\#", -1)
+					fix.InsertAbove("SUBDIR+=\t" + escaped)
 				}
 				fix.Apply()
 			}
